@@ -183,4 +183,15 @@ example :
     (write [] 60 nest3 { c := ({} : Ctx).set (lit "l") (.strs [lit "1", lit "2"]) .strings, w := {} }).st.w.out
       = lit "[xm][xm]" := by decide
 
+/-- A range-loop source without a square bracket is taken as it is, inside counter loops too (the substitution of
+    `m[i]` — repair of `Ctx.rloop` — touches bracketed sources only). -/
+theorem rloopQB_plain (run : St → Res) (re : Option (St → Res)) (ls : RLoopSpec) (s : St)
+    (hb : indexOf 91 ls.src = none) : rloopQB run re ls s = rloopWith run re ls s := by
+  unfold rloopQB cmpPath replaceQB
+  cases s.c.chQB <;> simp [hb]
+
+theorem rloopQB_plain_fn (run : St → Res) (re : Option (St → Res)) (ls : RLoopSpec)
+    (hb : indexOf 91 ls.src = none) : rloopQB run re ls = rloopWith run re ls :=
+  funext fun s => rloopQB_plain run re ls s hb
+
 end DyntplV.C14
